@@ -163,7 +163,7 @@ def recomputed_rec(I, tdgl, mesh):
 SHIFT = (0.75, -0.5)
 
 
-def transformed(dev, pre):
+def transformed(dev, pre, smooth=0):
     """The pre-save history of a meshed device (except "context", which is entered around the save)."""
     if pre == "translate":
         dev.translate(SHIFT[0], SHIFT[1], inplace=True)
@@ -176,7 +176,7 @@ def transformed(dev, pre):
             new = dev.rotate(30.0) if pre == "rotate" else dev.scale(xfact=1.25, yfact=0.8)
         finally:
             logging.disable(logging.NOTSET)
-        new.make_mesh(max_edge_length=1.4 * (1.25 if pre == "scale" else 1.0))
+        new.make_mesh(max_edge_length=1.4 * (1.25 if pre == "scale" else 1.0), smooth=smooth)
         return new
     return dev
 
@@ -371,7 +371,7 @@ def device_case(tdgl, args, tmp):
     path = os.path.join(d, "dev.h5")
     for gen in ((1, 2) if args.get("history") else (1,)):
         # generation 2: same outline, other layer / probe positions / smoothing (same array shapes, other content)
-        dev = transformed(build_device(tdgl, shape, variant, gen), shape.get("pre", "none"))
+        dev = transformed(build_device(tdgl, shape, variant, gen), shape.get("pre", "none"), smooth=variant % 2 + 30 * (gen - 1))
         ctxmgr = dev.translation(*SHIFT) if shape.get("pre") == "context" else contextlib.nullcontext()
         ctxmgr.__enter__()      # "context": made / save happen inside `with device.translation(...)`
         try:
@@ -438,7 +438,7 @@ def mesh_case(tdgl, args, tmp):
         pre = shape.get("pre", "none")
         if pre != "none":
             dev = dev.copy(with_mesh=True)      # (the cached device is shared)
-            dev = transformed(dev, pre)
+            dev = transformed(dev, pre, smooth=args.get("smooth", 0) + 35 * (gen - 1))
         ctxmgr = dev.translation(*SHIFT) if pre == "context" else contextlib.nullcontext()
         with ctxmgr:
             mesh = dev.mesh                      # "context": the mesh the device holds inside the temporary translation
@@ -529,7 +529,7 @@ def tiny_run(tdgl, out, nsteps, k, kind, probes, screening, smooth=0, pre="none"
 
     dev = devices.make(tdgl, kind, mel=1.3, probes=probes, smooth=smooth)
     if pre != "none":
-        dev = transformed(dev.copy(with_mesh=True), pre)       # (the cached device is shared)
+        dev = transformed(dev.copy(with_mesh=True), pre, smooth=smooth)       # (the cached device is shared)
     dt = 2.0 ** -6
     opts = tdgl.SolverOptions(solve_time=max(nsteps * dt - dt / 2, 0.0), dt_init=dt, dt_max=dt, adaptive=False, save_every=k,
                               output_file=out, progress_interval=10 ** 9, include_screening=screening, screening_tolerance=1e-2)
@@ -923,7 +923,9 @@ def validate(ctx, pid, traces, what, max_diag=6):
             continue
         far, violated, tail = ctx.diagnose_trace("PersistTrace", norm[n], cfg)
         e = tr["ev"][far - 1] if 0 < far <= len(tr["ev"]) else None
-        clause = ",".join(violated) if violated else "LoadSaveIdentity (no matching action)"
+        clause = ",".join(violated) if violated else (
+            "SavedMeshIsMeshOfItsTriangulation / MeshRestoredEqualsRecomputed (the object's mesh is not the mesh of its triangulation)"
+            if e is not None and e["ev"] == "made" else "LoadSaveIdentity (no matching action)")
         detail = ""
         if e is not None and tr["kind"] == "options" and e["ev"] == "load":
             detail = "; loaded differs from saved in: " + ", ".join(
